@@ -72,7 +72,9 @@ pub struct Run {
     pub rng_draws: u64,
     pub triggers: Vec<Trigger>,
     pub probe: ProbeStats,
-    pub cancelled_now: bool,
+    /// id of the most recently cancelled token (nodes searched under it count as post-cancel)
+    pub cancelled_token: Option<u64>,
+    pub tokens_created: u64,
     pub nodes_since_iteration: u64,
     pub post_cancel_bound: u64,
     pub node_cap: u64,
@@ -104,7 +106,8 @@ impl Run {
             rng_draws: 0,
             triggers: Vec::new(),
             probe: ProbeStats::default(),
-            cancelled_now: false,
+            cancelled_token: None,
+            tokens_created: 0,
             nodes_since_iteration: 0,
             post_cancel_bound: u64::MAX,
             node_cap: u64::MAX,
